@@ -123,7 +123,10 @@ func (s *Struct) Assign(gen Generator, ctx *MethodContext, assignTo *AssignTo, s
 					TargetType: targetFieldType.String,
 				})
 				if fieldMapping.Source != "" && fieldMapping.Source != "." {
-					return nil, NewError(fmt.Sprintf("The function %s has no source parameter, the source %q of the mapping would be ignored.", def.ID, fieldMapping.Source)).Lift(sourceLift...)
+					// the function does not use the source, the path still has to exist
+					if _, _, _, _, _, err := mapField(gen, ctx, targetField, sourceID, source, target, additionalFieldSources, targetFieldPath); err != nil {
+						return nil, err
+					}
 				}
 			}
 
